@@ -125,11 +125,13 @@ CHECKS = {
     },
     "C19": {
         "batches": [
-            {"engine": "roconc", "mode": "", "worker": "conc", "runs": {"quick": 16000, "thorough": 400000}, "budget": {"quick": 75, "thorough": 1500}},
+            {"engine": "roconc", "mode": "", "worker": "conc", "runs": {"quick": 14000, "thorough": 400000}, "budget": {"quick": 75, "thorough": 1500}},
+            # the same workload with the pure-Go Keccak / xor helpers (`-tags purego`): the read-only promise holds in every supported build
+            {"engine": "roconc", "mode": "", "worker": "conc", "build": "purego", "tags": "purego", "runs": {"quick": 3000, "thorough": 100000}, "budget": {"quick": 40, "thorough": 900}, "det": False},
         ],
         "rule": ("each run draws fresh keys/messages, enables a random subset of the operation kinds (swarm) {KMAC128 ComputeHash on one shared instance, BLS hasher ComputeHash, BLS Sign, Verify (valid and invalid), "
                  "BLSVerifyPOP (package-level hasher), SPOCKVerify, VerifyBLSSignatureOneMessage, VerifyBLSSignatureManyMessages, BatchVerifyBLSSignaturesOneMessage, ECDSA Sign and Verify on P-256 and secp256k1 with per-task hashers}, "
-                 "2-4 tasks with 1-4 operations each, and the interleaving at statement granularity of the instrumented library. Non-trivial = more context switches than tasks; "
+                 "2-4 tasks with 1-4 operations each, and the interleaving at statement granularity of the instrumented library; per run the shared world is drawn from a recipe (3-5 base keys plus keys derived by AggregateBLSPublicKeys / RemoveBLSPublicKeys / BLSThresholdKeyGen, messages and signatures exact-size or sub-slices of one arena, batch lists with a defective couple, key lists with a non-BLS key for the error paths); a second batch runs the same workload built with -tags purego. Non-trivial = more context switches than tasks; "
                  "distinct = distinct hash of (enabled operations, (task, source line) switch list)"),
         "time_unit": "scheduler steps (yield points passed), context switches, operations",
         "real": ["hash/kmac.go, bls.go, bls_multisig.go, spock.go, ecdsa.go and everything below: Go code of the scratch copy with a yield inserted before every statement; the C glue files (bls_core.c, bls12381_utils.c, bls_thresholdsign_core.c, dkg_core.c) with a yield before every statement too (a task can be descheduled inside a C function); BLST itself, golang.org/x/crypto/sha3, crypto/ecdsa and btcec unmodified (atomic steps)"],
